@@ -270,6 +270,12 @@ class SymNum:
     def astype(self, dt):  # numpy scalar API used by np.ceil(...).astype(np.int32)
         return self
 
+    def __deepcopy__(self, memo):     # immutable
+        return self
+
+    def __copy__(self):
+        return self
+
     def __repr__(self):
         return f"Sym({self.e})"
 
@@ -409,7 +415,17 @@ def s_abs(x):
     return abs(x)
 
 
-def s_int(x=0, *a):
+class _BuiltinTypeMeta(type):
+    """lets the replacements of `int` / `float` still work as the second argument of isinstance()"""
+
+    def __instancecheck__(cls, inst):
+        return isinstance(inst, cls._real)
+
+    def __call__(cls, *a, **k):
+        return cls._fn(*a, **k)
+
+
+def _s_int(x=0, *a):
     """int(): truncation toward zero; symbolic -> integral-valued SymNum tied to x by constraints."""
     if isinstance(x, SymNum):
         ctx = Ctx.cur
@@ -423,12 +439,22 @@ def s_int(x=0, *a):
     return _bi.int(x, *a)
 
 
-def s_float(x=0.0):
+def _s_float(x=0.0):
     if isinstance(x, SymNum):
         return x
     if isinstance(x, SymBool):
         return SymNum(z3.If(x.e, _rv(1), _rv(0)))
     return _bi.float(x)
+
+
+class s_int(metaclass=_BuiltinTypeMeta):
+    _real = _bi.int
+    _fn = staticmethod(_s_int)
+
+
+class s_float(metaclass=_BuiltinTypeMeta):
+    _real = _bi.float
+    _fn = staticmethod(_s_float)
 
 
 def s_range(*a):
@@ -468,6 +494,7 @@ class Ctx:
     def __init__(self, prefix=(), timeout_ms=15000, seed=0):
         self.solver = TrackedSolver()
         self.solver.owner = self
+        self.timeout_ms = timeout_ms
         self.solver.set("timeout", timeout_ms)
         if seed:
             self.solver.set("random_seed", seed % 1000)
@@ -505,8 +532,10 @@ class Ctx:
         return SymBool(z3.Bool(f"{base}{k}" if k else base))
 
     # -- solver access
-    def check(self, *extra, want_model=False):
+    def check(self, *extra, want_model=False, timeout_ms=None):
         t = time.time()
+        if timeout_ms is not None:
+            self.solver.set("timeout", timeout_ms)
         self.stats["queries"] += 1
         if extra:
             self.solver.push()
@@ -517,6 +546,8 @@ class Ctx:
             m = self.solver.model()
         if extra:
             self.solver.pop()
+        if timeout_ms is not None:
+            self.solver.set("timeout", self.timeout_ms)
         self.stats["solver_s"] += time.time() - t
         if r == "unknown":
             self.stats["unknown"] += 1
@@ -771,9 +802,11 @@ def _robust_model(ctx, o, e, m, known_id):
         if with_scales:
             for x in scales:
                 extra += [lift(x) >= _rv(fractions.Fraction(1, 2)), lift(x) <= 8]
-        r, m2 = ctx.check(*extra, want_model=True)
+        r, m2 = ctx.check(*extra, want_model=True, timeout_ms=2500)
         if r == "sat":
             return m2
+        if r == "unknown":
+            ctx.stats["unknown"] -= 1       # a failed search for a nicer model is not an inconclusive verdict
     return m
 
 
@@ -795,7 +828,6 @@ def _record_violation(ctx, o, e, m, res, max_violations):
             res.inconclusive["unknown-known-region:" + o.name] = \
                 res.inconclusive.get("unknown-known-region:" + o.name, 0) + 1
             return
-    m = _robust_model(ctx, o, e, m, known_id)
     same = [v for v in res.violations if v["name"] == o.name and v["known"] == known_id]
     if len(res.violations) >= max_violations and same:
         for v in same:
@@ -805,6 +837,7 @@ def _record_violation(ctx, o, e, m, res, max_violations):
     if len(same) >= 3:
         same[0]["count"] += 1
         return
+    m = _robust_model(ctx, o, e, m, known_id)
     case = None
     if o.realize is not None:
         try:
